@@ -30,7 +30,7 @@ RULE = (
     "write index of a cold run x {lost write, crash before, crash after} followed by restarts on the surviving store, then key-file truncation / "
     "deletion / replacement across a restart. Non-trivial = a hit was served or an injected cache fault fired on a stored entry; distinct = digest "
     "of (program shape, cache flags, backend, history / fault point)."
-    ' Further: cacheable nodes with emit outputs on DiskCache, two gates sharing one function with equal targets but different emit names, two graphs that differ in one node (extra emit / sibling closure made by the same file-defined factory) sharing one cache, a long-lived DiskCache object serving warm run, hit and damaged lookups; cacheable nodes that return / receive an unpicklable value (in-memory histories); the same two-parameter function with its inputs wired crosswise in the variant graph (equal graph-level inputs, different arguments).'
+    ' Further: cacheable nodes with emit outputs on DiskCache, two gates sharing one function with equal targets but different emit names, two graphs that differ in one node (extra emit / sibling closure made by the same file-defined factory) sharing one cache, a long-lived DiskCache object serving warm run, hit and damaged lookups; cacheable nodes that return / receive an unpicklable value (in-memory histories); the same two-parameter function with its inputs wired crosswise in the variant graph (equal graph-level inputs, different arguments); disk class unloadable: an authentic entry whose object the upgraded program can no longer load (loader raises ValueError/AttributeError/KeyError/ImportError).'
 )
 ASSUMPTIONS = [
     "values are immutable (InMemoryCache shares objects by reference)",
@@ -38,7 +38,7 @@ ASSUMPTIONS = [
     "quick tier replaces the diskcache library by an in-memory store with the same get/set/delete contract; sqlite-level behaviour is exercised only by the thorough tier",
 ]
 
-CORRUPTIONS = ["bitflip", "truncate", "type", "drop_hmac", "drop_payload", "hmac_type", "hmac_flip", "swap_payload", "swap_entry"]
+CORRUPTIONS = ["bitflip", "truncate", "type", "drop_hmac", "drop_payload", "hmac_type", "hmac_flip", "swap_payload", "swap_entry", "unloadable"]
 
 
 # ------------------------------------------------------------------ programs
@@ -193,6 +193,15 @@ def gen_case(rng: random.Random, tier: str) -> dict:
         return {"kind": "mem", "graph": g, "inputs": inp, "backend": backend, "runs": runs, "shared": shared, "variant": variant, "max_iterations": 12 if g["seeds"] else None}
     g = gen.gen_program(rng, max_nodes=5, depth=1, feats={"gates": rng.random() < 0.4, "loops": False, "nested": rng.random() < 0.3, "maps": False, "signals": rng.random() < 0.4, "edge_defaults": False})
     n = _mark_cache(g, rng, 0.75)
+    if rng.random() < 0.3:
+        # a cacheable node returning an object whose stored form the program can no longer load after an "upgrade" (class changed):
+        # the entry is authentic, yet loading it raises - it must behave as a miss as well
+        scal = [e for e in g["ext"] if e not in g["lists"]]
+        if scal:
+            g["nodes"].append({"kind": "fn", "name": "vz", "params": [{"name": scal[0]}], "outs": ["vz_o"], "beh": "versioned", "cache": True})
+            g["nodes"].append({"kind": "fn", "name": "vz_use", "params": [{"name": "vz_o"}], "outs": ["vz_u"], "cache": True})
+            g["order"] = list(g["order"]) + [len(g["nodes"]) - 2, len(g["nodes"]) - 1]
+            n += 2
     inp = gen.program_inputs(rng, g)
     return {"kind": "disk", "graph": g, "inputs": inp, "fault_seed": rng.randrange(1 << 30), "async_cfg": gen.gen_async_cfg(rng, allow_hold=False), "tier": tier, "only": None, "real": False,
             "same_instance": rng.random() < 0.4}  # one long-lived DiskCache object serves the warm run, the hit and the damaged lookups
@@ -547,6 +556,13 @@ def _run_disk(doc: dict) -> dict:
                 plan = [(entries[o[1]], o[2]) for o in only if o[0] == "corrupt" and o[1] < len(entries)]
             for k, cls in plan:
                 crng = random.Random(mix(doc["fault_seed"], k, cls))
+                if cls == "unloadable":
+                    raw0 = snapshot[k]
+                    if not (isinstance(raw0, (bytes, bytearray)) and b"_load_versioned" in raw0):
+                        continue
+                    from hgsim import util as _u
+
+                    gen0 = _u.GENERATION[0]
                 if disk is not None:
                     st = store()
                     st.clear()
@@ -573,8 +589,12 @@ def _run_disk(doc: dict) -> dict:
                 fired["disk_" + cls] = fired.get("disk_" + cls, 0) + 1
                 point = ["corrupt", entries.index(k), cls]
                 n0 = len(viol)
+                if cls == "unloadable":
+                    _u.GENERATION[0] = gen0 + 1 + entries.index(k)  # the program was upgraded: stored objects of the old generation no longer load
                 run_once(f"corrupt[{cls}]", keep=True)
                 w2 = run_once(f"corrupt[{cls}]:after", keep=True)
+                if cls == "unloadable":
+                    _u.GENERATION[0] = gen0
                 if w2 not in (None, "died") and invoked_cacheable(w2):
                     viol.append((f"corrupt[{cls}]:after:damaged_entry_not_repaired", {"nodes": invoked_cacheable(w2)}))
                 for i in range(n0, len(viol)):
